@@ -653,7 +653,7 @@ func (r *runner) observe(n *core.Node, res *core.BlockResult) map[string]interfa
 			}
 			rlist = append(rlist, m{"a": a.Addr.String(), "st": stt, "typ": typ})
 		}
-		for _, nm := range []string{"nvp1", "nvp2"} {
+		for _, nm := range []string{"nvp1", "nvp2", "vp1"} {
 			rc := n.Query(constant.NodeManagerContractAddr.Address(), "GetNode", pb.String(n.Account(nm).Addr.String()))
 			var nd struct {
 				Status string `json:"status"`
@@ -1674,7 +1674,15 @@ func genRoles(rng *rand.Rand, name string) *Plan {
 		case 6:
 			submit("BindRole", aud(), node(), "r")
 		case 7:
-			submit("UpdateNode", node(), fmt.Sprintf("nn%d", rng.Intn(9)), "chainA", "r")
+			if rng.Intn(3) == 0 { // a consensus (vp) node: id 5 is the next one after the four genesis nodes
+				if rng.Intn(2) == 0 {
+					submit("RegisterNode", "@vp1", "vpNode", "QmVerifPid1", "u64:5", "vpnode1", "", "r")
+				} else {
+					submit("LogoutNode", "@vp1", "r")
+				}
+			} else {
+				submit("UpdateNode", node(), fmt.Sprintf("nn%d", rng.Intn(9)), "chainA", "r")
+			}
 		case 8:
 			submit([]string{"FreezeRole", "ActivateRole", "LogoutRole"}[rng.Intn(3)], []string{"@newadmin1", "@aud1", "@aud2", "@aud1", "@newadmin1", "@admin3"}[rng.Intn(6)], "r")
 		case 9:
